@@ -1,12 +1,12 @@
-\* thorough exhaustive config: 3 snaps, 2 gaters, all boundary ticks
+\* thorough exhaustive config A: 2 snaps (both gate), all boundary ticks, 3 system durations, 5 steps
 CONSTANTS
-  Snaps <- MCSnaps3
+  Snaps <- MCSnaps2
   Gaters <- MCGaters
-  HoldSets <- MCHoldSets
+  HoldSets <- MCHoldSetsQ
   Ticks <- MCTicks
   SysDurs <- MCSysDurs3
   ExplicitDurs <- MCNoDurs
-  MaxSteps = 6
+  MaxSteps = 5
 INIT Init
 NEXT Next
 CHECK_DEADLOCK FALSE
